@@ -171,6 +171,10 @@ func raceOwner(loc string) string {
 		return "C13"
 	case loc == "sync.WaitGroup":
 		return "C12"
+	case strings.HasPrefix(loc, "Control"):
+		return "C14" // a control value handed to several responses is only ever read by gldap
+	case strings.HasPrefix(loc, "local testdirectory.(*Directory).handleBind."):
+		return "C19" // state shared between binds in flight: one bind is judged by another one's credentials
 	case vrt.IsMapLoc(loc) && !strings.HasPrefix(loc, "Directory."):
 		// unordered conflicting accesses to a map are detected by the Go runtime, which then kills the
 		// process ("fatal error: concurrent map writes"): recover() cannot catch that
